@@ -9,10 +9,11 @@ from facts import strip_generics
 HASH_TYPES = ("std::collections::HashMap<", "std::collections::HashSet<", "std::collections::hash_map::", "std::collections::hash_set::")
 SOURCE_METHODS = {"iter", "iter_mut", "keys", "values", "values_mut", "into_iter", "drain", "into_keys", "into_values",
                   "difference", "symmetric_difference", "intersection", "union", "extract_if"}
-ORDERED_TYPES = ("std::vec::Vec<", "std::string::String", "indexmap::IndexMap<", "indexmap::IndexSet<", "indexmap::map::IndexMap<",
-                 "indexmap::set::IndexSet<", "std::collections::VecDeque<", "wasm_encoder::", "&mut std::vec::Vec<", "&mut std::string::String",
-                 "&mut indexmap::", "std::option::Option<std::vec::Vec<")
-SORTED_TYPES = ("std::collections::BTreeMap<", "std::collections::BTreeSet<", "std::collections::BinaryHeap<")
+ORDERED_TYPES = ("alloc::vec::Vec<", "alloc::string::String", "indexmap::map::IndexMap<", "indexmap::set::IndexSet<",
+                 "alloc::collections::vec_deque::VecDeque<", "wasm_encoder::", "&mut alloc::vec::Vec<", "&mut alloc::string::String",
+                 "&mut indexmap::", "core::option::Option<alloc::vec::Vec<")
+SORTED_TYPES = ("alloc::collections::btree::map::BTreeMap<", "alloc::collections::btree::set::BTreeSet<", "alloc::collections::binary_heap::BinaryHeap<")
+HASH_TY_PREFIX = ("std::collections::hash::map::HashMap<", "std::collections::hash::set::HashSet<")
 
 # order-insensitive reductions / queries: the result does not depend on iteration order
 REDUCTIONS = ("::count", "::sum", "::all", "::any", "::len", "::is_empty", "::contains", "::contains_key", "::max", "::min",
@@ -27,7 +28,7 @@ S2_SUFFIX = ("Vec::push", "Vec::insert", "Vec::extend_from_slice", "Vec::append"
              "io::Write::write_all", "io::Write::write_fmt", "io::Write::write", "IndexMap::insert", "IndexMap::insert_full",
              "IndexMap::entry", "IndexSet::insert", "IndexSet::insert_full", "StableGraph::add_node", "StableGraph::add_edge",
              "Formatter::write_str", "Formatter::write_fmt", "::extend", "DebugList::entry", "DebugMap::entry", "DebugSet::entry",
-             "Vec::extend", "print::_print", "print::_eprint")
+             "Vec::extend", "::_print", "::_eprint")
 S2_PREFIX = ("wasm_encoder::", "wasm_metadata::")
 SORTS = ("::sort", "::sort_by", "::sort_by_key", "::sort_unstable", "::sort_unstable_by", "::sort_unstable_by_key", "::sort_by_cached_key")
 PER_ITEM_ADAPTORS = ("::for_each", "::map", "::filter", "::filter_map", "::flat_map", "::inspect", "::retain", "::any", "::all",
@@ -66,9 +67,9 @@ def is_source(fn, term):
     m = p.rsplit("::", 1)[-1]
     if m not in SOURCE_METHODS:
         return False
-    if p.startswith(("std::collections::HashMap::", "std::collections::HashSet::", "std::collections::hash_map::", "std::collections::hash_set::")):
+    if p.startswith(("std::collections::hash::map::HashMap::", "std::collections::hash::set::HashSet::")):
         return True
-    if "std::collections::HashMap<" in p.split(" as ")[0] or "std::collections::HashSet<" in p.split(" as ")[0]:
+    if "std::collections::hash::map::HashMap<" in p.split(" as ")[0] or "std::collections::hash::set::HashSet<" in p.split(" as ")[0]:
         # <&HashMap<K,V,S> as IntoIterator>::into_iter
         return True
     return False
@@ -76,7 +77,7 @@ def is_source(fn, term):
 
 def is_hash_retain(term):
     p = term.path or ""
-    return p in ("std::collections::HashMap::retain", "std::collections::HashSet::retain")
+    return p in ("std::collections::hash::map::HashMap::retain", "std::collections::hash::set::HashSet::retain")
 
 
 class Finding:
@@ -277,7 +278,7 @@ class Taint:
             if p.endswith("::collect") or p.endswith("::from_iter") or p.endswith("::unzip") or p.endswith("::partition"):
                 if targ:
                     dty = f.local_ty(t.dest.local)
-                    if dty.startswith(("std::string::String", "indexmap::")) or ", indexmap::" in dty:
+                    if dty.startswith(("alloc::string::String", "indexmap::")) or ", indexmap::" in dty:
                         self.findings.append(Finding(f, src_of(targ[0]), "S2", t, "hash-ordered sequence collected into an insertion-ordered container"))
             # closures invoked per item of a tainted iteration
             # closures created inside a hash-ordered loop run once per item
@@ -308,14 +309,14 @@ class Taint:
             old = self.returns_t.get(f.id)
             if ret_t and old is None:
                 rty = f.local_ty(0)
-                if not rty.startswith(SORTED_TYPES) and rty not in ("()", "bool", "usize") and not rty.startswith(("std::collections::HashMap<", "std::collections::HashSet<")):
+                if not rty.startswith(SORTED_TYPES) and rty not in ("()", "bool", "usize") and not rty.startswith(HASH_TY_PREFIX):
                     self.returns_t[f.id] = T[0]
                     return True
         return False
 
     def _is_iterish(self, f, o):
         ty = f.local_ty(o.place.local)
-        return not ty.startswith(("std::collections::HashMap<", "std::collections::HashSet<", "&std::collections::Hash", "&mut std::collections::Hash"))
+        return not ty.startswith(HASH_TY_PREFIX + ("&std::collections::hash::", "&mut std::collections::hash::"))
 
     def _closure(self, cf, src, parent):
         """closure body executed once per item in hash order: every ordered accumulation in it is a sink."""
